@@ -586,7 +586,7 @@ pub fn run(ctx: &Ctx) {
     let t = ctx.tier;
     // 7 connective shapes x 9^3 leaf triples
     ctx.run_sub("small-policies-all-availability", Plan::enumerate(7 * 729, 0.4), |rng, case| exhaustive_case(case, rng));
-    ctx.run_sub("generated-policies", Plan::sample(t.pick(6_000, 600_000), 0.55), |rng, case| one_case(rng, case));
+    ctx.run_sub("generated-policies", Plan::sample(t.pick(24_000, 600_000), 0.55), |rng, case| one_case(rng, case));
 }
 
 #[allow(dead_code)]
